@@ -198,7 +198,7 @@ Definition fold_not (name : bytes) (args : rtuple) : rres rtuple :=
     rdo a2 <- nth_rv args 2; rdo n2 <- not_of a2; ROk (firstn 2 args ++ [n2] ++ skipn 3 args)
   else if beq name k_currentdate then
     rdo a3 <- nth_rv args 3; rdo n3 <- not_of a3; ROk (firstn 3 args ++ [n3] ++ skipn 4 args)
-  else if beq name k_exists then
+  else if beq name k_exists || beq name k_size then
     match args with
     | RS a0 :: rest => ROk (RS (kw_not ++ a0) :: rest)
     | _ => RCrash
